@@ -264,7 +264,10 @@ OnPop(e, lineNo) ==
         cv == CacheViolations(pre, aux.mem)
         lim == IF e.nrunning >= aux.mem.njob THEN {<<"job_slot_overcommitted", "">>} ELSE {}
         drn == IF e.draining THEN {<<"dispatch_while_draining", "">>} ELSE {}
-        c03 == IF s \in Keys(pre) /\ ~ReadyDef(pre, s) THEN {<<"dispatched_with_unavailable_input", s>>} ELSE {}
+        c03 == (IF s \in Keys(pre) /\ ~ReadyDef(pre, s) THEN {<<"dispatched_with_unavailable_input", s>>} ELSE {})
+               \* "... makes it fail and stops further dispatch": nothing is dispatched once the failure of a step
+               \* whose input was edited under it is committed (the report of that failure is a round trip)
+               \cup (IF aux.failedOnChange THEN {<<"step_dispatched_after_an_input_changed_under_a_running_step", s>>} ELSE {})
         c11 == IF s \in Keys(pre) /\ ~pre.nodes[s].detached /\ ~NeededStep(pre, aux.mem, s)
                THEN {<<"dispatched_step_that_is_not_needed", s>>} ELSE {}
     IN /\ bad' = bad \o Mk(e, lineNo, "C10", dv \cup Classify(pre, cv) \cup drn)
